@@ -7,7 +7,8 @@
 (* allows, which harness/c01 replays on the real shell.                    *)
 (*                                                                         *)
 (* Words:  every single unit of U;  every pair with at least one unit in   *)
-(* Core;  every triple Core x Mid x Core (Mid: quoting forms, $@ and $* ). *)
+(* Core (and a 1/PairSlice sample of the other pairs);  every triple       *)
+(* Core x Mid x Core (Mid: quoting forms, $@ and $* ).                     *)
 (* Slice > 1 keeps all one-unit words and a 1/Slice sample (selected by    *)
 (* Seed) of the longer ones.  With nounset only words are printed whose    *)
 (* result can differ (some parameter they mention is unset).               *)
@@ -18,7 +19,8 @@
 EXTENDS Expand, Json, IOUtils
 
 CONSTANTS Slice,       \* 1: everything; k: 1/k of the words of 2 and 3 units
-          Level        \* 1: reduced alphabet of modifier words; 2: full
+          Level,       \* 1: reduced alphabet of modifier words; 2: full
+          PairSlice    \* 0: no pairs without a Core unit; k: a 1/k sample of them
 
 Seed == IF "SEED" \in DOMAIN IOEnv THEN (CHOOSE n \in 0..9999 : ToString(n) = IOEnv.SEED) ELSE 1
 
@@ -42,7 +44,7 @@ StateTable == <<
   [x |-> Val("a"),      y |-> Unset,     pos |-> <<"a">>,           st |-> "3"],
   [x |-> Val("a b"),    y |-> Val("*"),  pos |-> <<"a b", "">>,     st |-> "0"],
   [x |-> Val(" a:b "),  y |-> Val(":"),  pos |-> <<"", "c">>,       st |-> "0"],
-  [x |-> Val(":"),      y |-> Val(" "),  pos |-> <<"a", "b">>,      st |-> "0"],
+  [x |-> Val(":"),      y |-> Val(" "),  pos |-> <<"a\\", "b">>,   st |-> "0"],
   [x |-> Val("::a"),    y |-> Val("a"),  pos |-> <<" ">>,           st |-> "0"],
   [x |-> Val("a  b:"),  y |-> Val(""),   pos |-> <<>>,              st |-> "0"],
   [x |-> Val("e"),      y |-> Unset,     pos |-> <<":">>,           st |-> "0"],
@@ -118,7 +120,9 @@ Next ==
   /\ UNCHANGED <<si, fi, nu>>
   /\ \/ i1 = 0 /\ i1' \in 1..NU /\ UNCHANGED <<i2, i3>>
      \/ i1 # 0 /\ i2 = 0 /\ i3 = 0 /\ UNCHANGED <<i1, i3>>
-          /\ i2' \in (IF i1 <= NCore THEN 1..NU ELSE 1..NCore)
+          /\ i2' \in (IF i1 <= NCore THEN 1..NU
+                       ELSE (1..NCore) \cup {j \in (NCore+1)..NU :
+                               PairSlice > 0 /\ (i1 * 31 + j * 17 + si * 3 + fi * 5 + Seed) % PairSlice = 0})
      \* triples are stored as (core, -mid, core); reached from the pair (core, core)
      \/ i1 # 0 /\ i1 <= NCore /\ i2 # 0 /\ i2 <= NCore /\ i3 = 0 /\ UNCHANGED <<i1, i2>>
           /\ i3' \in 1..Len(Mid)
@@ -136,12 +140,14 @@ MentionsUnset(us, st) ==
   \E k \in DOMAIN us :
     LET u == us[k] IN
     \/ u.t = "par" /\ u.p \notin {"@", "*"} /\ ~Lookup(u.p, st).set
+    \/ u.t = "par" /\ u.p \in {"@", "*"} /\ st.pos = <<>>      \* set -u must not make these fail
     \/ u.t = "par" /\ u.m \in {"sw", "trim"} /\ MentionsUnset(u.w, st)
     \/ u.t = "dq" /\ MentionsUnset(u.u, st)
 
 Selected ==
   /\ i1 # 0
-  /\ (i2 # 0 /\ Slice > 1) => ((i1 * 7 + i2 * 13 + i3 * 29 + si * 3 + fi * 5 + Seed) % Slice = 0)
+  /\ (i2 # 0 /\ Slice > 1 /\ (i1 <= NCore \/ i2 <= NCore)) =>
+        ((i1 * 7 + i2 * 13 + i3 * 29 + si * 3 + fi * 5 + Seed) % Slice = 0)
   /\ nu => MentionsUnset(Word, MkState(si, fi, nu))
 
 Emit ==
